@@ -4,6 +4,7 @@ import (
 	"encoding/json"
 	"fmt"
 	"testing"
+	"time"
 
 	"github.com/basecomplextech/baselibrary/alloc/bytequeue"
 	"github.com/basecomplextech/baselibrary/async"
@@ -91,6 +92,9 @@ func (r *flowRun) flowMain(extra func(net *simnet.Net, eps []*endpoint)) {
 		return true
 	})
 	simrt.Logf("main: all channels done")
+	if r.post != nil {
+		r.post(net, eps)
+	}
 	r.teardown(srv, eps)
 }
 
@@ -127,6 +131,12 @@ func (r *flowRun) teardown(srv mpx.Server, eps []*endpoint) {
 	simrt.WaitQuiescent("flow.teardown")
 	r.bg.Cancel()
 	simrt.WaitQuiescent("flow.teardown2")
+	if r.plan.Faulty {
+		// let keep-alives, back-offs and dial timeouts run out, then nothing of the system may be left
+		simrt.Sleep(30 * time.Second)
+		simrt.WaitQuiescent("flow.teardown3")
+		r.leaked = simrt.LiveTasks()
+	}
 }
 
 // ---------------------------------------------------------------- scenario: mpxflow (C03)
@@ -275,7 +285,14 @@ func (mpxflowScn) Run(t *testing.T, seed uint64, plan any, o RunOpts) *Report {
 
 // runFlow executes a flow plan and applies the common oracles.
 func runFlow(t *testing.T, seed uint64, p *FlowPlan, o RunOpts, extra func(net *simnet.Net, eps []*endpoint), prop string) *Report {
+	return runFlowX(t, seed, p, o, prop, func(r *flowRun) { r.extra = extra })
+}
+
+func runFlowX(t *testing.T, seed uint64, p *FlowPlan, o RunOpts, prop string, setup func(r *flowRun)) *Report {
 	r := newFlowRun(p)
+	if setup != nil {
+		setup(r)
+	}
 	cfg := p.Env.simConfig(seed)
 	o.apply(&cfg)
 	cfg.OnIdle = func() { r.stranded = bytequeue.VerifStranded() }
@@ -283,8 +300,11 @@ func runFlow(t *testing.T, seed uint64, p *FlowPlan, o RunOpts, extra func(net *
 	res := simrt.Run(t, cfg, func() {
 		r.flowMain(func(n *simnet.Net, eps []*endpoint) {
 			net = n
-			if extra != nil {
-				extra(n, eps)
+			if r.tap != nil {
+				n.Tap = r.tap
+			}
+			if r.extra != nil {
+				r.extra(n, eps)
 			}
 		})
 	})
@@ -302,6 +322,10 @@ func runFlow(t *testing.T, seed uint64, p *FlowPlan, o RunOpts, extra func(net *
 		}
 		if r.stranded > 0 {
 			rep.violate("F1-bytequeue-lost-wakeup", "deadlock with %d byte queue(s) holding unread data in a later block while the reader is parked without a wake-up token; blocked: %v", r.stranded, res.Blocked)
+			return rep
+		}
+		if p.Faulty {
+			rep.violate("C09-waiter-not-released", "after the transport failure some operation never returned: blocked: %v; network: %v", res.Blocked, nd)
 			return rep
 		}
 		rep.violate(prop+"-deadlock", "the run stopped making progress with work outstanding; blocked: %v; network: %v", res.Blocked, nd)
